@@ -42,9 +42,13 @@ const (
 	OpChooseFree
 	OpSpawn
 	OpStep // returns global step counter without being a scheduling point
+	OpTrySend
+	OpTryRecv
+	OpSendWait // internal: sender committed and blocked in the channel
+	OpRecvWait // internal: receiver committed and blocked in the channel
 )
 
-var opNames = [...]string{"start", "done", "lock", "lockwait", "unlock", "rlock", "runlock", "send", "recv", "resume", "close", "yield", "now", "choose", "choosefree", "spawn", "step"}
+var opNames = [...]string{"start", "done", "lock", "lockwait", "unlock", "rlock", "runlock", "send", "recv", "resume", "close", "yield", "now", "choose", "choosefree", "spawn", "step", "trysend", "tryrecv", "sendwait", "recvwait"}
 
 func (o Op) String() string { return opNames[o] }
 
@@ -227,6 +231,44 @@ func SendStruct(ch chan struct{}) {
 	}
 }
 
+// TrySendStruct replaces `select { case ch <- struct{}{}: ...; default: ... }`.
+func TrySendStruct(ch chan struct{}) bool {
+	t := Cur()
+	if t < 0 {
+		NoteForeign()
+		select {
+		case ch <- struct{}{}:
+			return true
+		default:
+			return false
+		}
+	}
+	if Point(t, OpTrySend, chanAddr(ch), int64(cap(ch))) == 3 {
+		return false
+	}
+	ch <- struct{}{}
+	return true
+}
+
+// TryRecvStruct replaces `select { case <-ch: ...; default: ... }`.
+func TryRecvStruct(ch chan struct{}) bool {
+	t := Cur()
+	if t < 0 {
+		NoteForeign()
+		select {
+		case <-ch:
+			return true
+		default:
+			return false
+		}
+	}
+	if Point(t, OpTryRecv, chanAddr(ch), int64(cap(ch))) == 3 {
+		return false
+	}
+	<-ch
+	return true
+}
+
 // CloseStruct replaces close(ch).
 func CloseStruct(ch chan struct{}) {
 	t := Cur()
@@ -296,7 +338,19 @@ type Bounds struct {
 	Total   int // max sum of all deviations (-1 = unbounded)
 }
 
+// AltInfo describes one alternative at a scheduling node (for Policy).
+type AltInfo struct {
+	Tid  int
+	Op   Op
+	Res  uintptr
+	Tick int64
+}
+
 type Options struct {
+	// Policy, if set, picks the alternative at scheduling nodes beyond the replay
+	// prefix (directed witness runs); default is alternative 0.
+	Policy func(alts []AltInfo) int
+	RecordBlocked bool
 	Ticks    []int64 // clock deltas offered before a Now read
 	Clock0   int64
 	MaxSteps int
@@ -471,7 +525,11 @@ func (r *run) collect() {
 }
 
 func (r *run) choice(n int, costs []Cost, desc func(int) string) int {
-	idx := 0
+	return r.choiceD(n, 0, costs, desc)
+}
+
+func (r *run) choiceD(n int, def int, costs []Cost, desc func(int) string) int {
+	idx := def
 	k := len(r.x.Nodes)
 	if k < len(r.prefix) {
 		idx = r.prefix[k]
@@ -505,19 +563,10 @@ func (r *run) enabled(i int) bool {
 	case OpRLock:
 		l := r.lock(m.res)
 		return l.owner < 0 && l.announced < 0
-	case OpSend:
-		if r.chClose[m.res] {
-			return true // will panic for real: send on closed channel
-		}
-		if int64(r.chCount[m.res]) < m.arg {
-			return true
-		}
-		return m.arg == 0 && r.partner(i, m.res, OpRecv) >= 0
-	case OpRecv:
-		if r.chClose[m.res] || r.chCount[m.res] > 0 {
-			return true
-		}
-		return m.arg == 0 && r.partner(i, m.res, OpSend) >= 0
+	case OpSendWait:
+		return r.chClose[m.res] || (m.arg > 0 && int64(r.chCount[m.res]) < m.arg)
+	case OpRecvWait:
+		return r.chClose[m.res] || r.chCount[m.res] > 0
 	}
 	return true
 }
@@ -569,7 +618,7 @@ func (r *run) loop() {
 		}
 		// record who is blocked right now (for "not queued" monitors)
 		for i, t := range r.thr {
-			if t.state == 1 && !r.enabled(i) {
+			if r.opt.RecordBlocked && t.state == 1 && !r.enabled(i) {
 				owner := -1
 				switch t.pending.op {
 				case OpLock, OpLockWait, OpRLock:
@@ -603,7 +652,16 @@ func (r *run) loop() {
 		for i := range alts {
 			costs[i] = alts[i].cost
 		}
-		idx := r.choice(len(alts), costs, func(i int) string {
+		def := 0
+		if r.opt.Policy != nil && len(r.x.Nodes) >= len(r.prefix) {
+			infos := make([]AltInfo, len(alts))
+			for i, a := range alts {
+				m := r.thr[a.tid].pending
+				infos[i] = AltInfo{Tid: a.tid, Op: m.op, Res: m.res, Tick: a.tick}
+			}
+			def = r.opt.Policy(infos)
+		}
+		idx := r.choiceD(len(alts), def, costs, func(i int) string {
 			a := alts[i]
 			m := r.thr[a.tid].pending
 			s := fmt.Sprintf("t%d %s", a.tid, m.op)
@@ -655,25 +713,61 @@ func (r *run) fire(i int) {
 		reply = r.clock
 	case OpClose:
 		r.chClose[m.res] = true
-	case OpSend:
+	case OpSend, OpSendWait:
 		if !r.chClose[m.res] {
-			if m.arg > 0 && int64(r.chCount[m.res]) < m.arg {
-				r.chCount[m.res]++
-			} else if p := r.partner(i, m.res, OpRecv); p >= 0 && m.arg == 0 {
+			if p := r.partner(i, m.res, OpRecvWait); p >= 0 {
 				r.rendezvous(i, p)
 				return
-			} else if m.arg > 0 {
+			}
+			if m.arg > 0 && int64(r.chCount[m.res]) < m.arg {
 				r.chCount[m.res]++
+			} else {
+				t.pending.op = OpSendWait
+				return // committed and blocked in the channel; stays parked
 			}
 		}
-	case OpRecv:
+	case OpRecv, OpRecvWait:
 		if r.chCount[m.res] > 0 {
 			r.chCount[m.res]--
 		} else if !r.chClose[m.res] {
-			if p := r.partner(i, m.res, OpSend); p >= 0 {
+			if p := r.partner(i, m.res, OpSendWait); p >= 0 {
 				r.rendezvous(i, p)
 				return
 			}
+			t.pending.op = OpRecvWait
+			return
+		}
+	case OpTrySend:
+		reply = 3
+		if r.chClose[m.res] {
+			reply = 2
+		} else if p := r.partner(i, m.res, OpRecvWait); p >= 0 {
+			r.thr[i].state = 0
+			r.thr[p].state = 0
+			r.running += 2
+			batonGrant(p, 1)
+			batonGrant(i, 2)
+			r.collect()
+			return
+		} else if m.arg > 0 && int64(r.chCount[m.res]) < m.arg {
+			r.chCount[m.res]++
+			reply = 2
+		}
+	case OpTryRecv:
+		reply = 3
+		if r.chCount[m.res] > 0 {
+			r.chCount[m.res]--
+			reply = 2
+		} else if r.chClose[m.res] {
+			reply = 2
+		} else if p := r.partner(i, m.res, OpSendWait); p >= 0 {
+			r.thr[i].state = 0
+			r.thr[p].state = 0
+			r.running += 2
+			batonGrant(p, 1)
+			batonGrant(i, 2)
+			r.collect()
+			return
 		}
 	}
 	t.state = 0
